@@ -19,7 +19,8 @@ and not modelled.  This file proves, for EVERY graph:
     these operations applied to a provider‑independent holder; what is missing for the full mutual walk is said there;
   * `star_exact`, `unqualified_by_metadata`, `never_to_known_lacking`, `insert_positions_from_target_meta`,
     `explicit_list_wins` (for the REPAIRED create_insert.py, `Model/InsertCols.lean`), `unknown_tables_unchanged`;
-  * `dev_D8` — the unrepaired `exWriteQuery` ignores an explicit column list that is a strict subset of the known columns.
+  * `dev_D8` — the unrepaired extractor (`InsertCols.exWriteQueryUnrepaired`) ignores an explicit column list that is a strict
+    subset of the known columns.
 
 The model is tied to the code by `harness/c13.py`.
 -/
@@ -655,11 +656,12 @@ theorem unknown_tables_unchanged_target (env : Env) (tgt : List String) (cols : 
 /-- the provider knows `s.t (a, b, c)` -/
 def d8Prov : ProvView := ⟨true, fun k => if k == "s.t" then ["a", "b", "c"] else []⟩
 
-/-- `insert into s.t (a, b) select x, y from s.u` -/
-def d8Stmt : Ast.Stmt :=
-  .insert .insertInto false ["s", "t"] (some ["a", "b"])
-    (.select false [.mk (.col [] "x") none false, .mk (.col [] "y") none false] [.mk (.table ["s", "u"] none false) []]
-      none [] none) false
+/-- the query of `insert into s.t (a, b) select x, y from s.u` -/
+def d8Query : Ast.Query :=
+  .select false [.mk (.col [] "x") none false, .mk (.col [] "y") none false] [.mk (.table ["s", "u"] none false) []]
+    none [] none
+
+def d8Stmt : Ast.Stmt := .insert .insertInto false ["s", "t"] (some ["a", "b"]) d8Query false
 
 /-- the lineage edges between column nodes, by printed name -/
 def colEdges (r : Except Err LGraph) : List (String × String) :=
@@ -669,12 +671,15 @@ def colEdges (r : Except Err LGraph) : List (String × String) :=
       | _ => none)
   | .error _ => []
 
-/-- unrepaired (`Walk.analyze`): three write columns for two items, the positional wiring is skipped, the items keep their
-    own names; repaired (`analyzeFixed`): the list names the positions; and without metadata both agree with the repaired -/
+/-- unrepaired extractor: three write columns for two items, the positional wiring is skipped, the items keep their own
+    names; repaired (`exWriteQueryFixed` / `analyzeFixed`): the list names the positions; without metadata the unrepaired
+    extractor agrees with the repaired one -/
 theorem dev_D8 :
-    colEdges (analyze { prov := d8Prov } false d8Stmt) = [("s.u.x", "s.t.x"), ("s.u.y", "s.t.y")] ∧
+    colEdges (exWriteQueryUnrepaired { prov := d8Prov } true ["s", "t"] (some ["a", "b"]) d8Query) =
+      [("s.u.x", "s.t.x"), ("s.u.y", "s.t.y")] ∧
     colEdges (analyzeFixed { prov := d8Prov } false d8Stmt) = [("s.u.x", "s.t.a"), ("s.u.y", "s.t.b")] ∧
-    colEdges (analyze {} false d8Stmt) = [("s.u.x", "s.t.a"), ("s.u.y", "s.t.b")] := by
+    colEdges (exWriteQueryUnrepaired {} true ["s", "t"] (some ["a", "b"]) d8Query) =
+      [("s.u.x", "s.t.a"), ("s.u.y", "s.t.b")] := by
   decide +kernel
 
 end SqlLineage.Props.C13
